@@ -229,6 +229,9 @@ class YmlProjectIo(ProjectIoInterface):
         scheme = replace(result.scheme, data=result.data)
         scheme_path = result_folder / "scheme.yml"
         save_scheme(scheme, scheme_path, allow_overwrite=True)
+        # ``scheme`` is a copy, but the file reference written to ``result.yml`` is taken from
+        # ``result.scheme`` which still points to the file it was loaded from (if any).
+        result.scheme.source_path = scheme.source_path
         paths.append(scheme_path.as_posix())
 
         result_dict = asdict(result, folder=result_folder)
